@@ -7,7 +7,8 @@ def key() -> bytes:
     """
     Generate a private key
     """
-    return secrets.randbelow(bits.ecmath.SECP256K1_N).to_bytes(32, "big")
+    # randbelow(N - 1) is in [0, N - 2]: shift so that the key is always in [1, N - 1]
+    return (1 + secrets.randbelow(bits.ecmath.SECP256K1_N - 1)).to_bytes(32, "big")
 
 
 def pub(privkey: bytes, compressed: bool = False) -> bytes:
